@@ -210,7 +210,7 @@ pub fn synth_frame(rng: &mut Rng, w: u32, h: u32, style: u64) -> (Vec<u8>, Hdr) 
             _ => (0..n).map(|_| if rng.chance(1, 3) { rng.byte() } else { 0 }).collect(),
         }
     };
-    let p0len = 2200 + 96 * mbs_w * mbs_h;
+    let p0len = 2200 + 200 * mbs_w * mbs_h;
     let p0 = if (style >> 8) % 2 == 0 {
         controlled_p0(rng, p0len)
     } else {
@@ -230,7 +230,7 @@ pub fn synth_frame(rng: &mut Rng, w: u32, h: u32, style: u64) -> (Vec<u8>, Hdr) 
     out.extend_from_slice(&p0);
     let parts: Vec<Vec<u8>> = (0..nparts).map(|i| {
         let rows = (mbs_h + nparts - 1 - i) / nparts;
-        fill(rng, 64 + 1400 * mbs_w * rows.max(1), style / 4)
+        fill(rng, 64 + 9300 * mbs_w * rows.max(1), style / 4)
     }).collect();
     for p in &parts[..nparts - 1] {
         out.extend_from_slice(&(p.len() as u32).to_le_bytes()[..3]);
@@ -295,12 +295,17 @@ pub fn frame_case(rep: &mut Report, file: &[u8], label: &str) {
     rep.oracle_checks += 1;
     rep.hit(&format!("frame_w{}_h{}", w % 16, h % 16).replace("w0", "w0(aligned)"));
     hk::take_max_abs_coefficient();
+    hk::take_max_transform_value();
     let r = catch(|| image_webp::vp8::Vp8Decoder::decode_frame(Cursor::new(&vp8[..])).map_err(|e| format!("{e:?}")));
     let maxc = hk::take_max_abs_coefficient();
-    if maxc > 32767 {
-        // all reference decoders (RFC 6386's, libvpx, libwebp) hold dequantised coefficients in
-        // 16 bits; a stream whose coefficients do not fit has no defined reconstruction
-        rep.hit("frame_not_compared_coefficient_outside_16_bits");
+    let maxt = hk::take_max_transform_value();
+    if maxc > 32767 || maxt > 32767 {
+        // Reference decoders (RFC 6386's, libvpx, libwebp) hold dequantised coefficients in 16
+        // bits and compute the inverse transforms in 16-bit SIMD lanes / 32-bit C arithmetic: a
+        // stream whose coefficients or transform intermediates leave the 16-bit range has no
+        // defined reconstruction (the references themselves disagree).  No real encoder comes
+        // near (residuals are below 2^12).  Such frames must decode without panic, nothing more.
+        rep.hit(if maxc > 32767 { "frame_not_compared_coefficient_outside_16_bits" } else { "frame_not_compared_transform_intermediate_outside_16_bits" });
         if let Err(m) = r {
             rep.disagree(Disagreement { case, got: format!("PANIC {m}"), expected: "no panic".into(), class: "violation", obligation: "C02/C03: decoding never panics".into(), detail: label.into() });
         }
